@@ -101,6 +101,9 @@ def _force_world_close():
             pass
 
 
+_WORKER_PRIOR = []      # indices this worker process has executed so far
+
+
 def _worker_chunk(args):
     pid, base, tier, idxs, keep_digests = args
     faulthandler.enable()
@@ -135,9 +138,11 @@ def _worker_chunk(args):
         if r.get('violations'):
             if len(agg['violations']) < 40:
                 agg['violations'].append(
-                    {'index': i, 'seed': seed, 'violations': r['violations']})
+                    {'index': i, 'seed': seed, 'violations': r['violations'],
+                     'prior': list(_WORKER_PRIOR)})
             else:
                 agg['violations_more'] = agg.get('violations_more', 0) + 1
+        _WORKER_PRIOR.append(i)
         if len(agg['samples']) < 2 and r.get('nontrivial'):
             agg['samples'].append({'index': i, 'seed': seed,
                                    'summary': r.get('summary')})
@@ -261,7 +266,12 @@ def replay_file(pid, path, quiet=False):
     with open(path) as f:
         doc = json.load(f)
     scn = doc['scenario']
+    for hs_ in doc.get('history_seeds') or ():
+        # scenarios the same process had executed before: the violation
+        # depends on state the code under test kept across them
+        run_one(mod, mod.generate(hs_, doc.get('tier') or 'quick'))
     r = run_one(mod, scn, wall=300.0)
+    print('DIGEST %s' % r.get('digest'))
     sigs = [signature(v) for v in r.get('violations') or ()]
     exp = doc.get('expected_signature')
     ok_sig = exp in sigs if exp else bool(sigs)
@@ -282,6 +292,82 @@ def replay_file(pid, path, quiet=False):
     print('replay did not reproduce the violation (property holds on this '
           'tree for this scenario)')
     return 0
+
+
+def _history_report(pid, mod, rec, sig, tier, base, path, occurrences):
+    """A violation that does not reproduce when its scenario is run alone:
+    replay it after the scenarios the same worker process had run before it
+    (state kept across sessions by the code under test - a cache, a class
+    attribute, a mutable default - is part of the history).  The history is
+    minimised by removing blocks of it while the violation persists; every
+    trial is a fresh interpreter.  Returns the confirmed message or None."""
+    scn = mod.generate(rec['seed'], tier)
+    hist = [seed_for(base, pid, i) for i in rec.get('prior') or ()]
+
+    def trial(h):
+        with open(path, 'w') as f:
+            json.dump({'property': pid, 'verif_seed': base,
+                       'index': rec['index'], 'scenario_seed': rec['seed'],
+                       'expected_signature': sig, 'tier': tier,
+                       'history_seeds': h,
+                       'note': 'reproduces only after the listed earlier '
+                               'scenarios ran in the same process',
+                       'occurrences_in_batch': occurrences,
+                       'scenario': scn}, f, indent=1, sort_keys=True)
+        cp = subprocess.run([sys.executable, os.path.abspath(__file__), pid,
+                             '--replay', path, '--quiet-replay'],
+                            capture_output=True, text=True,
+                            env=dict(os.environ), timeout=1800)
+        dig = None
+        for line in cp.stdout.splitlines():
+            if line.startswith('DIGEST '):
+                dig = line.split()[1]
+        return cp.returncode == 1, dig
+    ok, dig = trial(hist)
+    if not ok:
+        return None
+    t0 = PERF()
+    n = 2
+    trials = 0
+    while len(hist) >= 1 and trials < 40 and PERF() - t0 < 600:
+        size = max(1, len(hist) // n)
+        removed = False
+        for a in range(0, len(hist), size):
+            cand = hist[:a] + hist[a + size:]
+            trials += 1
+            ok2, d2 = trial(cand)
+            if ok2:
+                hist, dig, removed = cand, d2, True
+                n = max(2, n - 1)
+                break
+            if trials >= 40 or PERF() - t0 >= 600:
+                break
+        if not removed:
+            if size == 1:
+                break
+            n = min(len(hist), n * 2)
+    ok, dig = trial(hist)
+    if not ok:
+        return None
+    with open(path) as f:
+        doc = json.load(f)
+    doc['expected_digest'] = dig
+    doc['history_minimised_with'] = trials
+    with open(path, 'w') as f:
+        json.dump(doc, f, indent=1, sort_keys=True)
+    ok, dig2 = trial_confirm(pid, path)
+    if not ok:
+        return None
+    return ('after %d earlier scenario(s) in the same process' % len(hist)) \
+        if hist else 'in a fresh process (un-minimised scenario)'
+
+
+def trial_confirm(pid, path):
+    cp = subprocess.run([sys.executable, os.path.abspath(__file__), pid,
+                         '--replay', path, '--quiet-replay'],
+                        capture_output=True, text=True, env=dict(os.environ),
+                        timeout=1800)
+    return cp.returncode == 1, None
 
 
 def fixed_witness_paths(pid):
@@ -377,9 +463,6 @@ def main(argv=None):
                          indent=1, default=repr)[:8000])
         return 0
     print('VERIF_SEED=%d property=%s tier=%s' % (base, pid, tier), flush=True)
-    regress_code, regressed = check_fixed_witnesses(mod, pid)
-    if regress_code == 2:
-        return 2
     n = args.runs or int(os.environ.get('VERIF_RUNS') or 0) or mod.BUDGET[tier]
     workers = args.workers or int(os.environ.get('VERIF_WORKERS') or 0) or \
         min(16, os.cpu_count() or 1)
@@ -426,6 +509,12 @@ def main(argv=None):
         print('HARNESS-ERROR: wall-clock watchdog (%ss)' % wall_cap)
         return 2
     wall = PERF() - t0
+    # (after the batch: the workers are forked from a parent that has not
+    # executed any scenario yet, so what a worker did is a function of the
+    # indices it ran - see _history_report)
+    regress_code, regressed = check_fixed_witnesses(mod, pid)
+    if regress_code == 2:
+        return 2
     if total['harness_errors']:
         he = sorted(total['harness_errors'], key=lambda x: x['index'])
         print('HARNESS-ERROR: %d run(s) hit a harness error; first: index=%d '
@@ -482,14 +571,24 @@ def main(argv=None):
             small = scn
             r = run_one(mod, small)
             vv = [x for x in r.get('violations') or () if signature(x) == s]
-        if not vv:
-            print('HARNESS-ERROR: violation %s at index %d seed %d did not '
-                  'reproduce in the parent process (nondeterminism)' % (
-                      s, rec['index'], rec['seed']))
-            return 2
         name = '%s_%s_%d.json' % (pid, ''.join(
             c if c.isalnum() else '-' for c in s.split('|')[0]), rec['seed'])
         path = os.path.join(VERIF, 'replays', name)
+        if not vv:
+            how = _history_report(pid, mod, rec, s, tier, base, path,
+                                  len(lst))
+            if how is None:
+                print('HARNESS-ERROR: violation %s at index %d seed %d did '
+                      'not reproduce in the parent process, nor after the '
+                      'scenarios its worker had run before it '
+                      '(nondeterminism)' % (s, rec['index'], rec['seed']))
+                return 2
+            print('violation: %s\n  %s\n  (seen %d time(s) in this batch; '
+                  'reproduces only %s)' % (s, v.get('msg'), len(lst), how))
+            print('VIOLATION property=%s replay=%s' % (pid, path), flush=True)
+            reported.append(s)
+            exit_code = 1
+            continue
         with open(path, 'w') as f:
             json.dump({'property': pid, 'verif_seed': base,
                        'index': rec['index'], 'scenario_seed': rec['seed'],
@@ -506,10 +605,21 @@ def main(argv=None):
                             capture_output=True, text=True, env=env,
                             timeout=600)
         if cp.returncode != 1:
-            print('HARNESS-ERROR: replay %s did not reproduce in a fresh '
-                  'process (rc=%d): %s' % (path, cp.returncode,
-                                           cp.stdout[-2000:] + cp.stderr[-2000:]))
-            return 2
+            how = _history_report(pid, mod, rec, s, tier, base, path,
+                                  len(lst))
+            if how is None:
+                print('HARNESS-ERROR: replay %s did not reproduce in a fresh '
+                      'process (rc=%d), nor after the scenarios its worker '
+                      'had run before it: %s' % (
+                          path, cp.returncode,
+                          cp.stdout[-2000:] + cp.stderr[-2000:]))
+                return 2
+            print('violation: %s\n  %s\n  (seen %d time(s) in this batch; '
+                  'reproduces only %s)' % (s, v.get('msg'), len(lst), how))
+            print('VIOLATION property=%s replay=%s' % (pid, path), flush=True)
+            reported.append(s)
+            exit_code = 1
+            continue
         print('violation: %s\n  %s\n  (seen %d time(s) in this batch; '
               'minimised with %d re-executions)' % (
                   s, vv[0].get('msg'), len(lst), sruns))
